@@ -634,8 +634,8 @@ Section Loops.
     - apply list_loop_e.
     - rewrite enc_list_cons, <- app_assoc in *.
       rewrite list_loop_ne by (apply starts_ne_app, encode_starts_ne).
-      rewrite app_length in Hb. pose proof (encode_length_pos v) as Hp.
-      rewrite Hv by (rewrite app_length; lia).
+      pose proof (encode_length_pos v) as Hp.
+      rewrite Hv by exact Hb. rewrite (app_length (encode v)) in Hb.
       cbn [length] in Hn. rewrite IH by lia. reflexivity.
   Qed.
 
@@ -651,12 +651,12 @@ Section Loops.
     - apply pairs_loop_e.
     - cbn [snd] in Hv. rewrite enc_pairs_cons, <- !app_assoc in *.
       rewrite pairs_loop_ne by (apply starts_ne_app, enc_str_starts_ne).
-      rewrite !app_length in Hb.
-      rewrite Hk by (rewrite !app_length; lia).
       destruct (enc_str_head k) as (c & t & E & _). assert (0 < length (enc_str k)) as Hp
           by (rewrite E; cbn [length]; lia).
-      rewrite Hv by (rewrite app_length; lia).
-      cbn [length] in Hn. pose proof (encode_length_pos v). rewrite IH by lia. reflexivity.
+      pose proof (encode_length_pos v) as Hq.
+      rewrite Hk by exact Hb. rewrite (app_length (enc_str k)) in Hb.
+      rewrite Hv by lia. rewrite (app_length (encode v)) in Hb.
+      cbn [length] in Hn. rewrite IH by lia. reflexivity.
   Qed.
 
   (* --- the loops consume input, if [rec] does --- *)
@@ -1017,3 +1017,128 @@ Corollary strict_decode_unique bs v w :
 Proof.
   intros H Hw ->. rewrite strict_decode_encode in H by exact Hw. congruence.
 Qed.
+
+(* ========================================================================================== *)
+(* 6. Examples (the model computes; the hypotheses of the theorems are satisfiable)            *)
+(* ========================================================================================== *)
+
+Module Examples.
+  Import String.
+  Local Open Scope string_scope.
+  Definition b (s : string) : bytes := list_ascii_of_string s.
+
+  (* {"info": {"name": "a", "length": -3}, "l": ["xy", 0, []]} in insertion (unsorted) order *)
+  Definition ex_value : value :=
+    BDict [(b"info", BDict [(b"name", BStr (b"a")); (b"length", BInt (-3))]);
+           (b"l", BList [BStr (b"xy"); BInt 0; BList []])].
+
+  Example encode_ex : encode ex_value = b"d4:infod4:name1:a6:lengthi-3ee1:ll2:xyi0eleee".
+  Proof. vm_compute. reflexivity. Qed.
+
+  Example ex_value_nodup : nodup_keys ex_value.
+  Proof. apply nodup_keysb_spec. vm_compute. reflexivity. Qed.
+
+  Example ex_value_not_canon : canonb ex_value = false.
+  Proof. vm_compute. reflexivity. Qed.
+
+  (* Theorem 1 on the example, with a remainder, computed *)
+  Example pydecode_encode_ex :
+    pydecode 60 (encode ex_value ++ b"tail")%list = Some (ex_value, b"tail").
+  Proof. vm_compute. reflexivity. Qed.
+
+  (* lenient-only input: leading zeros in an integer and in a length, "-0", unsorted keys,
+     a duplicate key (later value wins, first position kept), trailing bytes.
+     Real pyben returns ({'b': 0, 'a': 'xy', 'c': [-5]}, 35) on it. *)
+  Definition ex_lenient : bytes := b"d1:bi007e1:a02:xy1:bi-0e1:cli-05eeeTRAILING".
+
+  Example pydecode_lenient_ex :
+    pydecode (S (List.length ex_lenient)) ex_lenient =
+    Some (BDict [(b"b", BInt 0); (b"a", BStr (b"xy")); (b"c", BList [BInt (-5)])], b"TRAILING").
+  Proof. vm_compute. reflexivity. Qed.
+
+  Example strict_decode_lenient_ex : strict_decode ex_lenient = None.
+  Proof. vm_compute. reflexivity. Qed.
+
+  (* each defect alone is rejected by the strict decoder and accepted by the lenient one *)
+  Example strict_rejects :
+    map strict_decode
+        [b"i007e"; b"i-0e"; b"02:xy"; b"5:ab"; b"d1:bi1e1:ai2ee"; b"d1:ai1e1:ai2ee"; b"i1ex";
+         b"di1ei2ee"; b"i-e"; b"l"; b""]
+    = [None; None; None; None; None; None; None; None; None; None; None].
+  Proof. vm_compute. reflexivity. Qed.
+
+  Example lenient_accepts :
+    map pyloads [b"i007e"; b"i-0e"; b"02:xy"; b"5:ab"; b"d1:bi1e1:ai2ee"; b"d1:ai1e1:ai2ee"; b"i1ex"]
+    = [Some (BInt 7); Some (BInt 0); Some (BStr (b"xy")); Some (BStr (b"ab"));
+       Some (BDict [(b"b", BInt 1); (b"a", BInt 2)]); Some (BDict [(b"a", BInt 2)]);
+       Some (BInt 1)].
+  Proof. vm_compute. reflexivity. Qed.
+
+  (* both raise in Python: a short string inside a list, digits without ":", missing "e" *)
+  Example lenient_rejects :
+    map pyloads [b"l5:abe"; b"12"; b"i12"; b"li1e"; b"d1:ae"; b"x"; b""]
+    = [None; None; None; None; None; None; None].
+  Proof. vm_compute. reflexivity. Qed.
+
+  (* the canonical form of the example: sort every dictionary *)
+  Definition ex_canon : value :=
+    BDict (sort_keys [(b"info", BDict (sort_keys [(b"name", BStr (b"a")); (b"length", BInt (-3))]));
+                      (b"l", BList [BStr (b"xy"); BInt 0; BList []])]).
+
+  Example ex_canon_canon : canon ex_canon.
+  Proof. apply canonb_spec. vm_compute. reflexivity. Qed.
+
+  Example strict_decode_ex :
+    strict_decode (b"d4:infod6:lengthi-3e4:name1:ae1:ll2:xyi0eleee") = Some ex_canon
+    /\ encode ex_canon = b"d4:infod6:lengthi-3e4:name1:ae1:ll2:xyi0eleee"
+    /\ canonical_bytes (encode ex_canon) = true /\ canonical_bytes (encode ex_value) = false.
+  Proof. vm_compute. repeat split. Qed.
+
+  (* raw byte order: upper case before lower case, prefix before extension, bytes >= 128 last *)
+  Example bytes_ltb_ex :
+    bytes_ltb (b"Z") (b"a") = true /\ bytes_ltb (b"a") (b"ab") = true /\
+    bytes_ltb (b"ab") (b"a") = false /\ bytes_ltb (b"z") [ascii_of_nat 200] = true /\
+    bytes_ltb (b"a") (b"a") = false.
+  Proof. vm_compute. repeat split. Qed.
+
+  Example dict_ops_ex :
+    let d := [(b"b", BInt 1); (b"a", BInt 2)] in
+    update (b"b") (BInt 9) d = [(b"b", BInt 9); (b"a", BInt 2)] /\
+    update (b"c") (BInt 9) d = [(b"b", BInt 1); (b"a", BInt 2); (b"c", BInt 9)] /\
+    remove (b"b") d = [(b"a", BInt 2)] /\ lookup (b"a") d = Some (BInt 2) /\
+    lookup (b"z") d = None /\ sort_keys d = [(b"a", BInt 2); (b"b", BInt 1)] /\
+    sort_keys (sort_keys d) = sort_keys d.
+  Proof. vm_compute. repeat split. Qed.
+End Examples.
+
+(* ========================================================================================== *)
+(* Assumptions                                                                                 *)
+(* ========================================================================================== *)
+
+Print Assumptions pydecode_encode.
+Print Assumptions encode_inj.
+Print Assumptions encode_prefix_free.
+Print Assumptions pydecode_fuel.
+Print Assumptions decode_gen_fuel_mono.
+Print Assumptions strict_decode_encode.
+Print Assumptions strict_decode_sound.
+Print Assumptions canonical_iff.
+Print Assumptions strict_implies_lenient.
+Print Assumptions sort_keys_perm.
+Print Assumptions sort_keys_sorted.
+Print Assumptions sort_keys_sorted_id.
+Print Assumptions sort_keys_perm_eq.
+Print Assumptions lookup_sort_keys.
+Print Assumptions sort_keys_canon_top.
+Print Assumptions lookup_update_same.
+Print Assumptions lookup_update_other.
+Print Assumptions lookup_remove_same.
+Print Assumptions lookup_remove_other.
+Print Assumptions update_NoDup.
+Print Assumptions remove_NoDup.
+Print Assumptions canonb_spec.
+Print Assumptions nodup_keysb_spec.
+Print Assumptions N_of_dec_of_N.
+Print Assumptions dec_of_N_of_dec.
+Print Assumptions bytes_ltb_trichotomy.
+Print Assumptions bytes_ltb_trans.
